@@ -174,6 +174,10 @@ def check_binary(ctx, case):
             alln = all(v is None for v in case['a']['vals']) or (pk == 'corr' and all(u is None or v is None for u, v in zip(case['a']['vals'], case['p']['corr']['vals'])))
             if alln:
                 return probs
+        if op == 'pow' and pk in ('int', 'float', 'obs'):
+            with np.errstate(all='ignore'):
+                if all(at is None or is_nan_entry(at ** y) for at in a.content):
+                    return probs      # every power is undefined: such a correlator cannot be constructed
         probs.append(('violation', 'exception-%s-%s-%s' % (op, order, pk), '%s: %s' % (type(exc).__name__, str(exc)[:150])))
         return probs
     if not isinstance(res, pe.Corr):
@@ -199,6 +203,8 @@ def check_binary(ctx, case):
             exp = apply_op(op, at, yt) if order == 'l' else apply_op(op, yt, at)
             if op == 'div' and pk == 'corr' and is_nan_entry(exp):
                 exp = None
+            if op == 'pow' and is_nan_entry(exp):
+                exp = None       # a power that is not a number is an undefined timeslice (like np.sqrt / np.log)
         got = res.content[t]
         if (exp is None) != (got is None):
             probs.append(('violation', 'definedness-%s-%s' % (op, pk), 't=%d expected %s got %s' % (t, 'None' if exp is None else 'defined', 'None' if got is None else 'defined')))
@@ -564,6 +570,9 @@ def gen_case(ctx):
             if op == 'div':
                 order = 'l'
                 pk = rng.choice(['obs', 'int', 'float'])
+        if op == 'pow' and not cplx and rng.random() < 0.4:
+            a = gen_corr(rng, lo=-0.8, hi=2.0)     # negative bases: fractional powers are not a number -> undefined
+            T, N = len(a['vals']), a['N']
         v = rng.choice([0.5, 1.5, 2.0, -1.25, 3.0])
         p = {'kind': pk, 'v': v if pk != 'int' else rng.choice([1, 2, 3, -2])}
         if pk == 'complex':
@@ -581,6 +590,8 @@ def gen_case(ctx):
             lo, hi = (0.1, 1.4)       # some entries outside the domain -> NaN -> undefined
         if f == 'arccosh':
             lo, hi = (0.6, 2.5)
+        if f in ('sqrt', 'log') and rng.random() < 0.5:
+            lo, hi = (-0.8, 2.0)      # negative arguments -> NaN -> undefined
         return {'kind': 'func', 'a': gen_corr(rng, lo=lo, hi=hi), 'f': f}
     m = rng.choice(['roll', 'reverse', 'thin', 'symmetric', 'anti_symmetric', 'T_symmetry', 'item', 'trace', 'matrix_symmetric', 'projected', 'hankel', 'hankel', 'repr', 'ctor', 'real', 'imag', 'getitem'])
     if m in ('real', 'imag'):
